@@ -281,3 +281,38 @@ func H_c16_unrankwin_t() {
 	e := []uint{30, 38, 40, 52, 62, 62, 62, 62}[c]
 	c16UnrankWin(k, e, 64)
 }
+
+// H_c16_unrankmax: ranks in the top window [MaxInt-8, MaxInt] for large k (few loop iterations,
+// binomials close to the int range).
+func c16UnrankMax(ks []int, w int) {
+	k := ks[rt.Choice("k", len(ks))]
+	const maxI = int(^uint(0) >> 1)
+	r := rt.IntIn("r", maxI-w, maxI)
+	rt.WatchOverflow("github.com/Tom-Johnston/mamba/comb.Unrank")
+	u := Unrank(r, k)
+	rt.Check(len(u) == k, "Unrank: wrong length")
+	for i := range u {
+		rt.Check(u[i] >= 0, "Unrank: negative element")
+		if i > 0 {
+			rt.Check(u[i-1] < u[i], "Unrank: not strictly increasing")
+		}
+	}
+	var back int
+	p, _ := rt.Panics(func() { back = Rank(u) })
+	if !p {
+		rt.Check(back == r, "Rank(Unrank(r,k)) != r")
+	}
+	if !rt.Symbolic() {
+		sum := new(big.Int)
+		for i, c := range u {
+			sum.Add(sum, new(big.Int).Binomial(int64(c), int64(i+1)))
+		}
+		rt.Check(sum.IsInt64() && sum.Int64() == int64(r), "sum of C(c_i, i+1) differs from the rank")
+	}
+	rt.Reach("end")
+}
+
+func H_c16_unrankmax_q() { c16UnrankMax([]int{8, 12, 20, 31, 40, 62}, 8) }
+func H_c16_unrankmax_t() {
+	c16UnrankMax([]int{6, 7, 8, 9, 10, 12, 16, 20, 25, 31, 32, 33, 40, 50, 62, 63, 64}, 64)
+}
